@@ -68,6 +68,26 @@ theorem getMessage_typed_error (crc : Bytes → Nat) (bs : Bytes) (m : Msg)
           · injection h with h; subst h; simp at htyp
           · injection h with h; subst h; simp at herr
 
+/-- Size of a frame: 3 leader bytes, 1…1023 payload bytes, 3 CRC bytes. -/
+theorem validFrame_size_bounds (crc : Bytes → Nat) (f : Bytes) (h : ValidFrame crc f) :
+    7 ≤ f.length ∧ f.length ≤ 1029 := by
+  have h1 := h.lenNonzero
+  have h2 := h.size
+  have h3 : specU f 14 10 < 2^10 := specU_lt f 14 10
+  omega
+
+/-- Every typed message the handler delivers is 7 to 1029 bytes long: nothing shorter than the
+    smallest frame and nothing longer than the largest is ever presented as a typed message. -/
+theorem stream_typed_size (crc : Bytes → Nat) (bs : Bytes) (m : Msg)
+    (hm : m ∈ segment crc (In.ofBytes bs)) (htyp : 0 ≤ m.typ) :
+    7 ≤ m.raw.length ∧ m.raw.length ≤ 1029 ∧ m.typ < 4096 := by
+  have h := stream_typed_valid crc bs m hm htyp
+  have hb := validFrame_size_bounds crc m.raw h.1
+  refine ⟨hb.1, hb.2, ?_⟩
+  rw [h.2.1]; unfold typeOf
+  have : specU m.raw 24 12 < 2^12 := specU_lt _ _ _
+  omega
+
 /-! Non-vacuity (tests): a concrete valid 1005-typed frame with a 1-byte... the premises are met. -/
 def sampleFrame : Bytes := [0xD3, 0x00, 0x02, 0x3E, 0xD0] ++ crcBytes (crc24q [0xD3, 0x00, 0x02, 0x3E, 0xD0])
 
